@@ -182,7 +182,7 @@ func runC15P(r *simkit.Run, c Cfg) {
 	}
 	w.Net.Heal()
 	r.NoteEnabled(2)
-	r.State(fmt.Sprintf("closers=%d hold=%v explicit=%v hooks=%d", nclose, hold, explicit, nhooks > 0))
+	r.State(fmt.Sprintf("closers=%d hold=%v explicit=%v hooks=%v", nclose, hold, explicit, nhooks > 0))
 	r.MarkEnd()
 	r.Advance(40 * time.Second)
 }
